@@ -408,7 +408,10 @@ fn cancel(args: &[String]) {
     let mut viol: Vec<String> = Vec::new();
     for k in 0..n {
         let g = GenCfg { max_nodes: 9, max_ops: 12, allow_fw: true, allow_proj: true, allow_ext: false, allow_group: true, restarts: false, cyclic: false, layered: false };
-        let s = gen_scenario(&mut r, &g);
+        // every other scenario comes from the structured generator (firewalls, projections over them,
+        // projections over projections, groups): requests there spend most of their time in
+        // transitive-firewall repair and backward projection, which is where a dropped future matters
+        let s = if k % 2 == 1 { gen_scenario_tfc(&mut r, true, k % 4 == 3, k % 8 >= 4) } else { gen_scenario(&mut r, &g) };
         let mut rr = r.fork();
         let res = runtime.block_on(async {
             tokio::time::timeout(Duration::from_secs(30), async {
@@ -436,7 +439,7 @@ fn cancel(args: &[String]) {
                             if rr.chance(1, 2) {
                                 let t = engine.clone().tracked().await;
                                 let victim = *rr.pick(&nodes);
-                                let polls = rr.below(25);
+                                let polls = if rr.chance(1, 3) { rr.below(120) } else { rr.below(25) };
                                 {
                                     let fut = query_node(&t, victim);
                                     tokio::pin!(fut);
@@ -594,6 +597,57 @@ fn diamond() {
     std::process::exit(0);
 }
 
+/// F9 / C07 witness: an input session is requested while a re-computation is in flight, the
+/// computation finishes (its write batch removes the dirty mark of the edge it has just followed),
+/// the session then changes the same input (its batch sets that mark again) and commits; after a
+/// clean shutdown and reopening, the query must be recomputed.  If the session's batch is created
+/// before the session holds the exclusive phase lock, it is OLDER than the computation's batch, the
+/// store applies "set mark" before "remove mark", the mark is lost and the reopened engine serves
+/// the old value.  `engine f9 <rounds>` prints {"stale": n, "rounds": n, "first": ...}.
+fn f9(args: &[String]) {
+    let rounds: u64 = args.first().and_then(|s| s.parse().ok()).unwrap_or(6);
+    let n0 = Node { kind: Kind::Normal, idx: 0 };
+    let mut prog = Program::default();
+    prog.exprs.insert(n0, Expr::Mul(Box::new(Expr::Read(Node { kind: Kind::Input, idx: 0 })), Box::new(Expr::Const(10))));
+    let runtime = rt(2);
+    let (mut stale, mut first) = (0u64, String::from("null"));
+    for round in 0..rounds {
+        let w = World::new(prog.clone(), 0);
+        let disk = Shared::new();
+        let cap = [1u64, 2, 64][(round % 3) as usize];
+        let got = runtime.block_on(async {
+            let engine = open_db(&w, &disk, cap, 2).await;
+            { let mut s = engine.input_session().await; s.set_input(Var(0), 1).await; s.commit().await; }
+            { let t = engine.clone().tracked().await; let _ = query_node(&t, n0).await; }
+            { let mut s = engine.input_session().await; s.set_input(Var(0), 2).await; s.commit().await; }
+            // the re-computation of N0, held inside its executor
+            w.stall_node.store(node_code(n0), Ordering::SeqCst);
+            w.stall.store(true, Ordering::SeqCst);
+            let before = w.exec_count.load(Ordering::SeqCst);
+            let e1 = engine.clone();
+            let t1 = tokio::spawn(async move { let t = e1.tracked().await; let r = query_node(&t, n0).await; drop(t); r });
+            let t0 = Instant::now();
+            while w.exec_count.load(Ordering::SeqCst) == before && t0.elapsed() < Duration::from_secs(10) { tokio::time::sleep(Duration::from_millis(1)).await; }
+            // the session is requested now and waits for the exclusive lock
+            let e2 = engine.clone();
+            let t2 = tokio::spawn(async move { let mut s = e2.input_session().await; s.set_input(Var(0), 3).await; s.commit().await; });
+            tokio::time::sleep(Duration::from_millis(30)).await;
+            w.stall.store(false, Ordering::SeqCst);
+            let mid = t1.await.unwrap();
+            t2.await.unwrap();
+            drop(engine);
+            tokio::task::yield_now().await;
+            let engine = open_db(&w, &disk, cap, 2).await;
+            let t = engine.clone().tracked().await;
+            let after = query_node(&t, n0).await;
+            drop(t); drop(engine);
+            (format!("{mid:?}"), format!("{after:?}"))
+        });
+        if !got.1.contains("30") { stale += 1; if first == "null" { first = format!("{{\"round\":{round},\"cache\":{cap},\"during\":{:?},\"after_reopen\":{:?},\"expected\":\"30\"}}", got.0, got.1); } }
+    }
+    println!("{{\"rounds\":{rounds},\"stale\":{stale},\"first\":{first}}}");
+}
+
 fn main() {
     let args: Vec<String> = std::env::args().collect();
     if std::env::var("QV_PANIC_TRACE").is_err() { std::panic::set_hook(Box::new(|_| {})); }
@@ -606,6 +660,7 @@ fn main() {
         "f6" => f6(&args[2..]),
         "replay" => replay(&args[2..]),
         "f5" => f5(),
+        "f9" => f9(&args[2..]),
         "diamond" => diamond(),
         "c04" => c04(&args[2..]),
         "crash" => crash(&args[2..]),
